@@ -16,8 +16,12 @@ Universe == {[mn |-> mn, d |-> d, dir |-> dir, after |-> af, tk |-> tk, org |-> 
 Far == {[mn |-> "JMP", seg |-> s, off |-> o, bits |-> b, kw |-> kw] :
           s \in {0, 8, 16, 65535}, o \in {0, 27, 65535, 65536, 2147483647}, b \in {16, 32}, kw \in {"", "DWORD"}}
 
+\* rel8-only transfers (gosk reports them today; judged by BranchDenotes as soon as it assembles them)
+LoopFam == {[mn |-> mn, d |-> d, dir |-> dir, after |-> 1, tk |-> "l", org |-> o, bits |-> b] :
+              mn \in {"LOOP", "LOOPE", "LOOPNE", "JCXZ", "JECXZ"}, d \in {x \in Dists : x <= 140}, dir \in {"f", "b"}, o \in Orgs, b \in {16, 32}}
+
 VARIABLE c
-Init == c \in Universe \cup Far
+Init == c \in Universe \cup Far \cup (IF Mns = {} THEN LoopFam ELSE {})
 Next == UNCHANGED c
 Emit == PrintT(<<"CASE", ToJson(c)>>)
 =============================================================================
